@@ -532,6 +532,9 @@ class ExpressionEngine:
 
     supported_char_escape_set = {'&', '<', '>'}
 
+    # The token of the expression that is being compiled
+    _token = None
+
     def __init__(
         self,
         parser,
@@ -566,7 +569,17 @@ class ExpressionEngine:
             char_escape = self._char_escape
 
         def compiler(target, engine, result_type=None, *args):
-            stmts = expression(target, engine)
+            # Expressions nest (``load: ${name}.pt``): the token of the
+            # enclosing one is put back when this one has been evaluated
+            token = string.strip() \
+                if handle_errors and isinstance(string, Token) else None
+            outer = self._token
+            if token is not None:
+                self._token = token
+            try:
+                stmts = expression(target, engine)
+            finally:
+                self._token = outer
 
             if result_type is not None:
                 method = getattr(self, '_convert_%s' % result_type)
@@ -589,8 +602,10 @@ class ExpressionEngine:
 
                 stmts.extend(steps)
 
-            if handle_errors and isinstance(string, Token):
-                stmts.insert(0, TokenRef(string.strip()))
+            if token is not None:
+                stmts.insert(0, TokenRef(token))
+                if outer is not None:
+                    stmts.append(TokenRef(outer))
 
             return stmts
 
